@@ -379,6 +379,9 @@ pub fn snapshot_memory(t: &Target, cfg: &DumpCfg, extra: &[(u64, u64)]) -> Vec<(
     for (p, l) in &cfg.app_memory {
         ranges.push((*p, *l));
     }
+    if t.desc["dso"]["n"].as_u64().unwrap_or(0) > 0 {
+        ranges.push((t.desc["dso"]["dyn"].as_u64().unwrap(), 256));
+    }
     ranges.extend_from_slice(extra);
     let mut out = Vec::new();
     for (a, l) in ranges {
@@ -407,6 +410,24 @@ pub fn dump_case(prop: &str, id: &str, t: &Target, cfg: &DumpCfg, dest: &mut Rec
     let start = dest.pos;
     let mem = snapshot_memory(t, cfg, &[]);
     let maps = t.maps_text();
+    // what the kernel reports about the target right now (it is blocked): the writer copies these
+    for f in ["cmdline", "environ", "auxv", "limits", "status"] {
+        let data = std::fs::read(format!("/proc/{}/{}", cfg.blamed, f)).unwrap_or_default();
+        std::fs::write(format!("{}.{}", base, f), data).ok();
+    }
+    std::fs::write(format!("{}.cpuinfo", base), std::fs::read("/proc/cpuinfo").unwrap_or_default()).ok();
+    let mut fds: Vec<String> = Vec::new();
+    if let Ok(rd) = std::fs::read_dir(format!("/proc/{}/fd", t.pid)) {
+        for e in rd.flatten() {
+            let name = e.file_name().to_string_lossy().to_string();
+            let link = std::fs::read_link(e.path()).map(|p| p.to_string_lossy().to_string()).unwrap_or_default();
+            use std::os::unix::fs::MetadataExt;
+            let mode = std::fs::metadata(e.path()).map(|m| m.mode()).unwrap_or(0);
+            let ok = std::fs::metadata(e.path()).is_ok();
+            fds.push(format!("{} {} {} {}", name, mode, ok as u8, hex(link.as_bytes())));
+        }
+    }
+    std::fs::write(format!("{}.fds", base), fds.join("\n")).ok();
     let thr = t.thread_field();
     let mut w = writer_for(t, cfg);
     let prev = std::panic::take_hook();
@@ -430,8 +451,8 @@ pub fn dump_case(prop: &str, id: &str, t: &Target, cfg: &DumpCfg, dest: &mut Rec
         std::fs::write(format!("{}.img", base), img).unwrap();
     }
     let line = format!(
-        "{} {} kind=dump cfg={} result={} img=@{}.img mem=@{}.mem maps=@{}.maps dest=@{}.dest c0=@{}.c0 start={} log={} thr={} states={} pid={}{}",
-        prop, id, cfg.field(), result, base, base, base, base, base, start,
+        "{} {} kind=dump cfg={} result={} img=@{}.img mem=@{}.mem maps=@{}.maps dest=@{}.dest c0=@{}.c0 base={} start={} log={} thr={} states={} pid={}{}",
+        prop, id, cfg.field(), result, base, base, base, base, base, base, start,
         if dest.log.is_empty() { "-".to_string() } else { dest.log.join(",") },
         thr,
         states.join(","),
